@@ -1,33 +1,43 @@
 #!/bin/bash
-# Runs every seeded change against the quick check of the property it breaks (and the pinned header
-# tests of the modules it touches), one after the other, and writes seeded/caught_by.json.
-# Uses /repo's working tree (patch applied, reverted afterwards): run nothing else meanwhile.
+# Runs every seeded change against the quick check of the property it breaks and, when the change touches
+# a header, the pinned header tests of the touched modules (failing set with the change must equal the
+# failing set without it).  One after the other; uses /repo's working tree (patch applied, reverted
+# afterwards): run nothing else meanwhile.  Appends to seeded/matrix.ndjson (resumable), then writes
+# seeded/caught_by.json.     usage: seeded_matrix.sh [name-regex]
 cd "$(dirname "$0")/.."
-out=seeded/caught_by.json
-echo "{" > $out.tmp
-first=1
+log=seeded/matrix.ndjson; touch $log
 for d in seeded/C*-*; do
   name=$(basename $d); prop=${name%%-*}
   [ -n "$1" ] && [[ ! "$name" =~ $1 ]] && continue
+  grep -q "\"name\": \"$name\"" $log && continue
   P=$d/patch.rebased.diff; [ -f $P ] || P=$d/patch.diff
   tools/try_mutant.sh /verif/$d $prop > /tmp/matrix-$name.log 2>&1
   rc=$(grep -o '^rc=[0-9]*' /tmp/matrix-$name.log | cut -d= -f2)
   nv=$(grep -c '^VIOLATION' /tmp/mut-$prop.log)
   first_v=$(grep -m1 '^VIOLATION' /tmp/mut-$prop.log | sed 's/.*# //' | cut -c1-160 | tr -d '"\\')
-  # pinned header tests of the touched modules with the change applied
-  mods=$(grep '^+++ b/libs/pika/' $P | sed 's|+++ b/libs/pika/\([^/]*\)/.*|\1|' | sort -u | tr '\n' ' ')
-  tests="not run"
-  if [ -n "$mods" ] && [ -z "$(git -C /repo status --porcelain --untracked-files=no)" ]; then
-    (git -C /repo apply $P 2>/dev/null || (git -C /repo apply --3way $P 2>/dev/null && git -C /repo reset -q))
+  tests="source files only: the pinned header self-containment tests do not compile them"
+  if grep -q '^+++ b/.*\.hpp' $P && [ -z "$(git -C /repo status --porcelain --untracked-files=no)" ]; then
+    mods=$(grep '^+++ b/libs/pika/.*\.hpp' $P | sed 's|+++ b/libs/pika/\([^/]*\)/.*|\1|' | sort -u | tr '\n' ' ')
     re=$(for m in $mods; do printf 'tests.headers.modules.%s\\.|' $m; done | sed 's/|$//')
-    tests=$(ctest --test-dir /repo/_build -j8 --timeout 900 -R "$re" 2>&1 | grep "tests passed\|tests failed" | tail -1 | tr -d '"')
+    (git -C /repo apply $P 2>/dev/null || (git -C /repo apply --3way $P 2>/dev/null && git -C /repo reset -q))
+    ctest --test-dir /repo/_build -j12 --timeout 900 -R "$re" > /tmp/ct-with.log 2>&1
     git -C /repo checkout -q -- . ; git -C /repo reset -q --hard HEAD
-    ctest --test-dir /repo/_build -j8 --timeout 900 -R "$re" > /dev/null 2>&1
+    ctest --test-dir /repo/_build -j12 --timeout 900 -R "$re" > /tmp/ct-without.log 2>&1
+    fw=$(grep -E '^\s*[0-9]+ - .*\(Failed\)' /tmp/ct-with.log | sed 's/^ *[0-9]* - //' | sort | md5sum | cut -c1-8)
+    fo=$(grep -E '^\s*[0-9]+ - .*\(Failed\)' /tmp/ct-without.log | sed 's/^ *[0-9]* - //' | sort | md5sum | cut -c1-8)
+    sw=$(grep "tests passed" /tmp/ct-with.log | tail -1); so=$(grep "tests passed" /tmp/ct-without.log | tail -1)
+    if [ "$fw" = "$fo" ]; then tests="modules $mods: same result with and without the change ($sw)"; else tests="modules $mods: DIFFERENT failing set with the change ($sw) vs without ($so)"; fi
   fi
-  [ $first -eq 1 ] || echo "," >> $out.tmp
-  first=0
-  printf ' "%s": {"check": "tools/vcheck %s --tier quick", "exit_code": %s, "violations_reported": %s, "first_violation": "%s", "pinned_tests_of_touched_modules_with_change": "%s"}' "$name" "$prop" "${rc:-null}" "${nv:-0}" "$first_v" "$tests" >> $out.tmp
+  printf '{"name": "%s", "check": "tools/vcheck %s --tier quick", "exit_code": %s, "violations_reported": %s, "first_violation": "%s", "pinned_tests_of_touched_modules_with_change": "%s"}\n' "$name" "$prop" "${rc:-null}" "${nv:-0}" "$first_v" "$tests" >> $log
   echo "$name rc=$rc violations=$nv | $tests"
 done
-echo "" >> $out.tmp; echo "}" >> $out.tmp
-python3 -c "import json;json.load(open('$out.tmp'))" && mv $out.tmp $out
+python3 - <<'PY'
+import json
+out={}
+for l in open('seeded/matrix.ndjson'):
+    l=l.strip()
+    if l:
+        r=json.loads(l); out[r.pop("name")]=r
+json.dump(out,open('seeded/caught_by.json','w'),indent=1)
+print("caught_by.json:",len(out),"entries")
+PY
